@@ -57,3 +57,14 @@ Definition model_trace (c : lcase) : option (list (Z * Z) * Z * Z * Z) :=
   | Some l => Some (sink_trace l, closed_z l, l_rx l, l_tx l)
   | None => None
   end.
+
+(** C07: does the model say this configuration kills a stage? 0 = no, 1 = out of fuel,
+    5 = some stage panics (the process dies), 6 = some stage recurses for ever *)
+Definition stage_outcome (c : lcase) : Z :=
+  match model_run c with
+  | None => 1
+  | Some l =>
+    if existsb (fun s => match s_st s with Panicked _ => true | _ => false end) (l_stubs l) then 5
+    else if existsb (fun s => match s_st s with Diverged => true | _ => false end) (l_stubs l) then 6
+    else 0
+  end.
